@@ -85,6 +85,28 @@ pub fn hist_cfg(prop: &str, run_seed: u64, thorough: bool) -> HistCfg {
     if rng.chance(1, 3) {
         drop_some(&mut weights, &mut rng, 250);
     }
+    // the file-system calls (load_file / write on the simulated disk) belong to the workloads of C10 (what is written is
+    // what the model holds), C11 (a failed read or write changes nothing) and C12 (neither panics); disk faults are
+    // injected in the fault-injecting half of the runs only
+    let mut io_fault = 0;
+    match prop {
+        "C10" => {
+            weights.push((K::MWrite, 25));
+            weights.push((K::MLoadFile, 20));
+            io_fault = if ghost_on { 400 } else { 0 };
+        }
+        "C11" => {
+            weights.push((K::MWrite, 25));
+            weights.push((K::MLoadFile, 40));
+            io_fault = if ghost_on { 500 } else { 0 };
+        }
+        "C12" => {
+            weights.push((K::MWrite, 12));
+            weights.push((K::MLoadFile, 12));
+            io_fault = if run_seed & 1 == 1 { 300 } else { 0 };
+        }
+        _ => {}
+    }
     let n_ops = if thorough { 10 + rng.below(90) } else { 8 + rng.below(50) };
     let max_nodes = *[40usize, 80, 150, 300].get(rng.below(if thorough { 4 } else { 3 })).unwrap();
     let ppm = [5_000u32, 10_000, 30_000, 100_000][rng.below(4)];
@@ -99,6 +121,7 @@ pub fn hist_cfg(prop: &str, run_seed: u64, thorough: bool) -> HistCfg {
             bad_permille: bad,
             load_fault_permille: load_fault,
             abuse_permille: abuse,
+            io_fault_permille: io_fault,
         },
         n_ops,
         max_nodes,
